@@ -41,7 +41,9 @@ def epsalg(case):
             L = 1.25 * scale
             a = rng.uniform(0.5, 2, k) * scale
             q = np.array([0.5, -0.3, 0.7])[:k]
-            seq = [L + float(np.sum(a * q ** n)) for n in range(2 * k + 3)]
+            # 2k+1 terms: beyond that the exact table of an exactly summable sequence has vanishing differences (outside the
+            # property's precondition) and the floating-point table is pure rounding noise
+            seq = [L + float(np.sum(a * q ** n)) for n in range(2 * k + 1)]
             want = wynn(seq)
             if want is None:
                 continue
@@ -79,6 +81,16 @@ def dea(case):
                     r3, e3 = dea3(*seq[:3])
                     if not abs(res - r3[0]) <= 1e-9 * max(1.0, abs(r3[0])):
                         bad.append(dict(limexp=limexp, sequence=name, term=2, dea=res, dea3=float(r3[0]))); break
+    # outside the guards the table holds the even columns of Wynn's epsilon table: a limit plus k geometric transients is
+    # an entry of the table after 2k+1 terms (k = 1, 2, 3)
+    for k, (L, amps, qs) in enumerate([(1.5, [3.5], [0.6]), (2.0, [2.5, 0.5], [0.8, 0.3]), (-1.0, [1.0, -2.0, 0.7], [0.7, 0.45, -0.2])], start=1):
+        for limexp in (21, 51):
+            d = Dea(limexp=limexp)
+            for j in range(2 * k + 1):
+                d(L + sum(a * q ** j for a, q in zip(amps, qs)))
+            tab = np.asarray(d.epstab[:d._n + 1], dtype=float)
+            if not np.any(np.abs(tab - L) <= 1e-7 * max(1.0, abs(L))):
+                bad.append(dict(limexp=limexp, transients=k, terms=2 * k + 1, limit=L, table=tab.tolist()))
     return dict(reproduced=bool(bad), failing=bad[:4], statement='Dea accepts sequences of any length, returns finite values with abserr >= 5 eps |result|')
 
 
